@@ -189,6 +189,15 @@ def run_unit(unit, rng, ctx):
         shapes = analyzer.analyze_positions(handed, radius=radius)
         ctx.check(np.array_equal(handed, positions), f'{what}: analyze_positions modified the position array it was given', wit)
         ctx.check(len(shapes) == len(an_sites), f'{what}: {len(shapes)} shapes for {len(an_sites)} sites', wit)
+        # boundary sizes: 1 .. 4 input positions (all close to the first site)
+        for npos in (1, 2, 3, 4):
+            s0_ = np.asarray(an_sites[0].frac_coords)
+            small = np.mod(s0_[None, :] + (gen.random_unit_vectors(rng, npos) * rng.uniform(0.1, 0.9 * radius, size=(npos, 1))) @ inv, 1)
+            small[small == 1] = 0
+            shp_small = analyzer.analyze_positions(small.copy(), radius=radius)
+            want_s, knife_s, _ = oracle(ops, m, s0_, small, radius)
+            compare(ctx, what + f' [{npos} input position(s)]', wit, shp_small[0], want_s, knife_s, radius)
+        ctx.count('tiny_position_sets', 4)
         tot_out = tot_pts = 0
         for s, shp in zip(an_sites, shapes):
             want, knife, outside = oracle(ops, m, np.asarray(s.frac_coords), positions, radius)
